@@ -287,6 +287,7 @@ func TestVerif(t *testing.T) {
 			Agent bool   `json:"agent"`
 			AMode string `json:"agentmode"`
 			User  string `json:"user"`
+			Prefix string `json:"prefix"` // what the labels and files start with (-fileprefix / the configuration); default keymaster
 		}
 		if err := dec.Decode(&c); err != nil {
 			t.Fatal(err)
@@ -294,6 +295,10 @@ func TestVerif(t *testing.T) {
 		user := c.User
 		if user == "" {
 			user = "alice"
+		}
+		prefix := c.Prefix
+		if prefix == "" {
+			prefix = "keymaster"
 		}
 		srv := servers[c.Mode]
 		home, _ := os.MkdirTemp(os.Getenv("VERIF_WORK"), "home")
@@ -304,11 +309,11 @@ func TestVerif(t *testing.T) {
 			ag = &vcAgent{Agent: agent.NewKeyring(), mode: c.AMode}
 			// what an agent that has been in use holds: certificates left over under the labels the client is about to
 			// use - one of them already expired, never given an agent lifetime - and a certificate of another tool
-			for _, lbl := range []string{"keymaster-" + c.Pref + "-" + user, "keymaster-ed25519-" + user, "other-tool-alice"} {
+			for _, lbl := range []string{prefix + "-" + c.Pref + "-" + user, prefix + "-ed25519-" + user, "other-tool-alice"} {
 				vcSeedAgent(ag.Agent, lbl, lbl != "other-tool-alice" && strings.Contains(lbl, c.Pref))
 			}
 			// ... and a second leftover under the main label (two overlapping earlier runs, or ssh-add of the fallback files)
-			vcSeedAgent(ag.Agent, "keymaster-"+c.Pref+"-"+user, false)
+			vcSeedAgent(ag.Agent, prefix+"-"+c.Pref+"-"+user, false)
 			sock := filepath.Join(home, "agent.sock")
 			lst = vcServeAgent(sock, ag)
 			os.Setenv("SSH_AUTH_SOCK", sock)
@@ -335,7 +340,7 @@ func TestVerif(t *testing.T) {
 			}
 			rec := &vcRecorder{inner: client.Transport}
 			client.Transport = rec
-			lines, gaps := []string{"pw-" + user + "\n"}, []time.Duration{0}
+			lines, gaps := []string{"pw-" + strings.ToLower(user) + "\n"}, []time.Duration{0}
 			if c.Mode == "totp" {
 				// one code per 30 s period (replay guard) and 2 s spacing (limiter): every further use waits for a new period
 				if totpUsed {
@@ -346,8 +351,8 @@ func TestVerif(t *testing.T) {
 				lines, gaps = append(lines, code+"\n"), append(gaps, 900*time.Millisecond)
 			}
 			restore := vcPipeStdin(lines, gaps)
-			FilePrefix = "keymaster"
-			cfg := config.AppConfigFile{Base: config.BaseConfig{Gen_Cert_URLS: srv.URL, PreferredKeyType: c.Pref, FilePrefix: "keymaster"}}
+			FilePrefix = prefix
+			cfg := config.AppConfigFile{Base: config.BaseConfig{Gen_Cert_URLS: srv.URL, PreferredKeyType: c.Pref, FilePrefix: prefix}}
 			err = setupCerts(user, home, cfg, client, logger)
 			restore()
 			if err != nil {
@@ -487,7 +492,7 @@ func TestVerif(t *testing.T) {
 				"ownLabels": func() int {
 					n := 0
 					for _, l := range labels {
-						if strings.HasPrefix(l, "keymaster-") {
+						if strings.HasPrefix(l, prefix+"-") {
 							n++
 						}
 					}
